@@ -122,8 +122,9 @@ CHECKS["C20"] = dict(
           "(length, keys, values, strictly increasing); a frequency-based series has the requested number of points and "
           "carries the volume exactly where the calendar predicate holds, 0 elsewhere; hour-of-day and day-of-week "
           "periodicity. The calendar algorithm is kernel-checked against its inverse on 2023-2028 (a finite table, labelled "
-          "as such) and compared with pandas (day of week / month / year) on every run by K-time. NOT proved: the "
-          "full-day sum of the daily-volume helper (oracle only). sin-based helpers: index by the model, values by the "
+          "as such) and compared with pandas (day of week / month / year) on every run by K-time; for duplicate-free hours "
+          "within 0..23 the daily-volume helper carries exactly the daily volume on any 24 consecutive hours "
+          "(dailyVolume_sum_full_day). sin-based helpers: index by the model, values by the "
           "oracle. Finding D12 (duplicate / out-of-range hours) is a known finding."),
     design="§7 C20")
 
